@@ -1,0 +1,18 @@
+//go:build verif
+
+package webtransport
+
+import (
+	"io"
+
+	"github.com/karagenc/socket.io-go/engine.io/parser"
+)
+
+// Exports for the verification harness in /verif. Compiled only with the
+// `verif` build tag; nothing here changes library behaviour.
+
+func VerifSend(w io.Writer, packet *parser.Packet) error { return send(w, packet) }
+
+func VerifNextPacket(r io.Reader) (*parser.Packet, error) { return nextPacket(r) }
+
+func VerifNewLimitedReader(r io.Reader, limit int64) io.Reader { return newLimitedReader(r, limit) }
